@@ -115,7 +115,7 @@ def check_C07(ctx, tier):
         if d.name == 'rr_cache':
             _sample_paths(ctx, d, paths, lambda o: o.kind == 'return' and any(e.kind == 'DUMP' for e in o.st.events))
     S.rule_S_LOAD_DUMP(ctx, ctx.repo)      # S-DUMP: dump(k) writes exactly {k: self[k]} for resident k and removes nothing
-    A.rule_A_PUBFAIL(ctx, ctx.repo, A.Cache(ctx.repo))   # a failed write-back never replaces or removes what is archived
+    A.rule_A_PUBFAIL(ctx, ctx.repo, A.Cache(ctx.repo, unroll=1 if tier == 'quick' else 2))   # a failed write-back never replaces or removes what is archived
     return ('Every DEL(v)/CLEAR on a path with an archive attached is preceded by DUMP(v)/DUMP(*) with no intervening store; wrappers '
             'and management closures never touch the archive except through cache.dump/load.')
 
@@ -206,6 +206,7 @@ def check_C12(ctx, tier):
     RR.rule_R_GUARD_STR_KW(ctx, ctx.repo)
     RR.rule_R_NONE(ctx, ctx.repo)
     RR.rule_R_PURE(ctx, ctx.repo)
+    RR.rule_R_DEEP(ctx, ctx.repo)
     ctx.assume('numeric results of round(), and whether type(x)(items) can rebuild arbitrary iterables (range, generators), are not decided')
     return ('state.roundargs is rounded(tol) of the identity with rounded chosen by deep; the key path goes through it and the function '
             'receives the originals (W-KEY, W-ARGS, also in klepto.keygen); every round() is dominated by isinstance(x, float); tol=None '
@@ -229,7 +230,7 @@ ATECH = 'static analysis: interprocedural storage-effect enumeration over the ar
 
 
 def check_C03(ctx, tier):
-    cache = A.Cache(ctx.repo)
+    cache = A.Cache(ctx.repo, unroll=1 if tier == 'quick' else 2)
     A.rule_A_OVR_BASE(ctx, ctx.repo, cache)
     A.rule_A_EFF(ctx, ctx.repo, cache)
     A.rule_A_KEYERR(ctx, ctx.repo, cache)
@@ -246,7 +247,7 @@ def check_C03(ctx, tier):
 
 
 def check_C04(ctx, tier):
-    cache = A.Cache(ctx.repo)
+    cache = A.Cache(ctx.repo, unroll=1 if tier == 'quick' else 2)
     A.rule_A_NOCACHE(ctx, ctx.repo, cache)
     A.rule_A_EFF(ctx, ctx.repo, cache, must_read_only=True)
     A.rule_A_COMMIT(ctx, ctx.repo, cache)
@@ -262,7 +263,7 @@ def check_C04(ctx, tier):
 
 
 def check_C13(ctx, tier):
-    cache = A.Cache(ctx.repo)
+    cache = A.Cache(ctx.repo, unroll=1 if tier == 'quick' else 2)
     A.rule_A_PUB(ctx, ctx.repo, cache)
     A.rule_A_UNPUB(ctx, ctx.repo, cache)
     A.rule_A_VIS_STAGE(ctx, ctx.repo, cache)
@@ -278,7 +279,7 @@ def check_C13(ctx, tier):
 
 
 def check_C14(ctx, tier):
-    cache = A.Cache(ctx.repo)
+    cache = A.Cache(ctx.repo, unroll=1 if tier == 'quick' else 2)
     A.rule_A_PUB(ctx, ctx.repo, cache)
     A.rule_A_VIS_STAGE(ctx, ctx.repo, cache)
     A.rule_A_FACTORY_OPEN(ctx, ctx.repo, cache, open_only=True)
@@ -294,7 +295,7 @@ def check_C14(ctx, tier):
 
 
 def check_C20(ctx, tier):
-    cache = A.Cache(ctx.repo)
+    cache = A.Cache(ctx.repo, unroll=1 if tier == 'quick' else 2)
     for d, paths in _wrappers(ctx, tier):
         W.setup_abbrev(d)
         W.rule_W_RED(ctx, d)
